@@ -484,13 +484,28 @@ func (s *c02State) daaDifferential(ctx context.Context, nChains int) {
 				cur = root
 			case h == forkAt+1 && onChild:
 				// continue on a child branch hanging off the root at forkAt (plus a decoy sibling on the root)
+				// in two of three chains the root has already grown past the fork point when the child
+				// branch is created (a fork below the parent's tip), otherwise it grows afterwards
+				dprev, nDecoy, before := prev, 1+rng.Intn(3), rng.Intn(3) > 0
+				addDecoys := func() {
+					for i := 0; i < nDecoy; i++ {
+						decoy := &wire.BlockHeader{Version: 2, PrevBlock: dprev, Timestamp: times[h] + 7 + uint32(i), Bits: bits}
+						cur.Add(decoy)
+						dprev = *decoy.BlockHash()
+					}
+				}
+				if before {
+					addDecoys()
+					s.count("daa/child-branch-forks-below-parent-tip")
+				}
 				nb, err := headers.NewBranch(cur, forkAt, hd)
 				if err != nil {
 					s.run.Inconclusive("new-branch-failed")
 					return
 				}
-				decoy := &wire.BlockHeader{Version: 2, PrevBlock: prev, Timestamp: times[h] + 7, Bits: bits}
-				cur.Add(decoy)
+				if !before {
+					addDecoys()
+				}
 				cur = nb
 			default:
 				if !cur.Add(hd) {
